@@ -20,7 +20,7 @@ def jobs(tier, ws):
                       replace=['ncmpio_Bernstein_hash'], defines=['-DNB0=%d' % b0, '-DNB1=%d' % b1],
                       canaries=['deleted', 'not_found'] + (['bucket_emptied'] if 1 in (b0, b1) else []), unwind=9, kind='bounded', solver=['--sat-solver', 'cadical'],
                       bound='2 buckets with %d and %d entries' % (b0, b1), timeout=600))
-    for b0, b1 in ([(0, 1), (4, 0), (2, 1)] if tier == 'quick' else [(0, 0), (0, 1), (1, 0), (4, 0), (0, 4), (2, 1), (3, 3), (4, 4)]):
+    for b0, b1 in ([(0, 1), (4, 0), (2, 1)] if tier == 'quick' else [(0, 0), (0, 1), (1, 0), (4, 0), (0, 4), (2, 1), (3, 3)]):
         js.append(Job('C07/ncmpio_hash_insert/buckets%d_%d' % (b0, b1), 'C07', HF, 'C07_hash.c', enforce='ncmpio_hash_insert',
                       replace=['ncmpio_Bernstein_hash'], defines=['-DH_insert', '-DNB0=%d' % b0, '-DNB1=%d' % b1],
                       canaries=(['first_in_bucket'] if 0 in (b0, b1) else []) + (['list_grown'] if 4 in (b0, b1) else []), unwind=9, kind='bounded', solver=['--sat-solver', 'cadical'],
